@@ -12,9 +12,9 @@ RULE = (
     "x protocols 0-5 (2-5 for __slots__ classes) + deepcopy; random trees <=40 nodes, depth <=100; distinct = hash of the configuration; trivial = none"
 )
 ASSUMPTIONS = ["depth <= 100 (pickle/deepcopy recursion limits are Python's)", "node classes are importable module-level classes (a pickle requirement)"]
-GATES = ["mon.C19.bijection", "mon.C19.independence", "C19.pickle", "C19.deepcopy", "C19.symlink_inside", "C19.symlink_outside", "C19.link_to_link", "C19.slots", "C19.entry_not_root", "C19.special_method_classes", "C19.after_faulted_history"]
+GATES = ["mon.C19.bijection", "mon.C19.independence", "C19.pickle", "C19.deepcopy", "C19.symlink_inside", "C19.symlink_outside", "C19.link_to_link", "C19.slots", "C19.entry_not_root", "C19.special_method_classes", "C19.after_faulted_history", "C19.tree_used_before_copy"]
 
-MIXES = ("Node", "AnyNode", "NM", "LM", "MIXSYM", "HNode", "FALSY", "VALNM", "VALLM", "FALSYNODE", "LMSUB", "FALSYLM")
+MIXES = ("Node", "AnyNode", "NM", "LM", "MIXSYM", "HNode", "FALSY", "VALNM", "VALLM", "FALSYNODE", "LMSUB", "FALSYLM", "NMSLOTS")
 
 
 def plan(tier, seed, jobs):
@@ -50,6 +50,9 @@ def build(par, mix, rng):
         nodes = [F.LM("n%d" % i) if i % 3 == 0 else (F.LM2 if i % 3 == 1 else F.LM3)("n%d" % i, extra=(None if i % 2 else ("x", i)), more=[i]) for i in range(n)]  # some slots hold None
     elif mix == "FALSYLM":
         nodes = [F.FalsyLM("n%d" % i, i % 2) for i in range(n)]
+    elif mix == "NMSLOTS":
+        # a NodeMixin subclass that declares slots of its own: instances carry both a __dict__ and slot values
+        nodes = [slotted_nm_class()("n%d" % i, tagslot=("s", i), other=[i], free=i * 2) for i in range(n)]
     elif mix == "HNode":
         nodes = [F.HNode("n%d" % i, w=i * 1.5) for i in range(n)]
     else:
@@ -76,6 +79,39 @@ def build(par, mix, rng):
         if p is not None:
             nodes[i].parent = nodes[p]
     return nodes, extra
+
+
+_SLOTTED_NM = []
+
+
+def slotted_nm_class():
+    from anytree import NodeMixin
+
+    if not _SLOTTED_NM:
+        class SlottedNM(NodeMixin):
+            __slots__ = ("tagslot", "other")
+
+            def __init__(self, name, tagslot=None, other=None, **kw):
+                self.name = name
+                self.tagslot = tagslot
+                self.other = other
+                self.__dict__.update(kw)
+
+            def __repr__(self):
+                return "SlottedNM(%s)" % (self.name,)
+
+        SlottedNM.__module__ = __name__
+        SlottedNM.__qualname__ = "SlottedNM"
+        globals()["SlottedNM"] = SlottedNM  # picklable by reference
+        _SLOTTED_NM.append(SlottedNM)
+    return _SLOTTED_NM[0]
+
+
+def use_tree(nodes):
+    """The tree has a past as a *used* tree: every read-only API has been called on it (results are discarded here)."""
+    from .. import battery as B
+
+    B.battery(nodes, level=1 if len(nodes) <= 6 else 0, exporters=len(nodes) <= 6)
 
 
 def attrs_of(node):
@@ -273,11 +309,16 @@ def check_tree(ctx, par, mix, case, entries, hows, seedtag):
                 ctx.count("C19.symlink_outside")
                 if len(par) >= 4:
                     ctx.count("C19.link_to_link")
-            if mix in ("LM", "VALLM", "LMSUB", "FALSYLM"):
+            if mix in ("LM", "VALLM", "LMSUB", "FALSYLM", "NMSLOTS"):
                 ctx.count("C19.slots")
             if mix in ("FALSY", "FALSYNODE", "VALNM", "VALLM"):
                 ctx.count("C19.special_method_classes")
-            ctx.case((tuple(par), mix, e, how), sample=dict(case, entry=e, how=how) if ctx.evals % 3001 == 0 else None)
+            used = case.get("used", (len(par) + e + len(how)) % 2 == 1)
+            if used:
+                ctx.count("C19.tree_used_before_copy")
+                use_tree(nodes)
+            ctx.case((tuple(par), mix, e, how, used), sample=dict(case, entry=e, how=how, used=used) if ctx.evals % 3001 == 0 else None)
+            case = dict(case, used=used)
             with ctx.guard(dict(case, entry=e, how=how)):
                 if not check_copy(ctx, how, e, nodes, extra, case, rng):
                     return False
@@ -285,7 +326,7 @@ def check_tree(ctx, par, mix, case, entries, hows, seedtag):
 
 
 def hows_for(mix):
-    if mix in ("LM", "VALLM", "LMSUB", "FALSYLM"):
+    if mix in ("LM", "VALLM", "LMSUB", "FALSYLM", "NMSLOTS"):
         return ["2", "3", "4", "5", "deepcopy"]
     return ["0", "1", "2", "3", "4", "5", "deepcopy"]
 
@@ -381,4 +422,7 @@ def replay(ctx, wit):
 def _replay_static(ctx, wit):
     c = wit["case"]
     ctx.case(("replay",))
-    check_tree(ctx, c["par"], c["mix"], {"par": c["par"], "mix": c["mix"]}, [c["entry"]] if "entry" in c else range(len(c["par"])), [c["how"]] if "how" in c else hows_for(c["mix"]), "replay")
+    base = {"par": c["par"], "mix": c["mix"]}
+    if "used" in c:
+        base["used"] = c["used"]
+    check_tree(ctx, c["par"], c["mix"], base, [c["entry"]] if "entry" in c else range(len(c["par"])), [c["how"]] if "how" in c else hows_for(c["mix"]), "replay")
